@@ -18,7 +18,9 @@ def canon(x):
     """to plain python: tuples->lists, numpy -> python, dict keys -> str (sorted at compare time)"""
     import numpy
 
-    if isinstance(x, (str, bool)) or x is None:
+    if isinstance(x, str):
+        return str(x)  # numpy.str_ -> str
+    if isinstance(x, bool) or x is None:
         return x
     if isinstance(x, (int, numpy.integer)):
         return int(x)
@@ -27,7 +29,7 @@ def canon(x):
     if isinstance(x, numpy.ndarray):
         return canon(x.tolist())
     if isinstance(x, dict):
-        return {str(k): canon(v) for k, v in x.items()}
+        return {("|".join(map(str, k)) if isinstance(k, tuple) else str(k)): canon(v) for k, v in x.items()}
     if isinstance(x, (list, tuple)):
         return [canon(v) for v in x]
     if isinstance(x, (set, frozenset)):
@@ -235,7 +237,6 @@ def obs_table(t):
         legend=t.legend,
         index_name=t.index_name,
         types={c: t.columns[c].dtype.kind for c in t.header},
-        formats=canon(dict(t._column_templates)) if all(isinstance(v, str) for v in t._column_templates.values()) else sorted(t._column_templates),
         digits=t._digits,
         space=t.space,
         missing=t._missing_data,
